@@ -246,6 +246,23 @@ pub fn check_planted(p: &Planted) -> Result<bool, Failure> {
         if before.ends_with('(') && after.starts_with(')') {
             v.push((before.len() - 1, p.text.len() - after.len() + 1));
         }
+        // The same through comments and line breaks, and through several levels: by tokens.
+        if let Ok(Ok(toks)) = catch(|| crate::tokenizer::tokenize(None, &p.text)) {
+            let toks: Vec<_> = toks.iter().filter(|t| !matches!(t.variant, crate::token::Variant::Terminator(crate::token::TerminatorType::LineBreak))).collect();
+            let (mut s, mut e) = (p.start, p.end);
+            loop {
+                let prev = toks.iter().rev().find(|t| t.source_range.end <= s);
+                let next = toks.iter().find(|t| t.source_range.start >= e);
+                match (prev, next) {
+                    (Some(a), Some(b)) if matches!(a.variant, crate::token::Variant::LeftParen) && matches!(b.variant, crate::token::Variant::RightParen) => {
+                        s = a.source_range.start;
+                        e = b.source_range.end;
+                        v.push((s, e));
+                    }
+                    _ => break,
+                }
+            }
+        }
         v
     };
     let points_at_fault = |d: &String| {
@@ -458,6 +475,163 @@ fn ranges_case(ctx: &Ctx, ch: &mut Ch) -> Outcome {
     }
 }
 
+// ---------------------------------------------------------------------------------------------
+// Type faults at any subterm position of generated programs.
+// ---------------------------------------------------------------------------------------------
+
+#[derive(Clone, Copy, PartialEq, Eq, Debug)]
+enum Site {
+    IntOperand,
+    Condition,
+    Applicand,
+    TypePosition,
+}
+
+/// Every position of `term` whose expected type is fixed by the syntax around it.
+fn fault_sites(term: &Term, depth: usize, out: &mut Vec<(usize, usize, Site, usize)>) {
+    let mut site = |t: &Term, k: Site, out: &mut Vec<(usize, usize, Site, usize)>| {
+        if let Some(r) = t.source_range {
+            out.push((r.start, r.end, k, depth + 1));
+        }
+    };
+    match &term.variant {
+        Variant::Sum(a, b)
+        | Variant::Difference(a, b)
+        | Variant::Product(a, b)
+        | Variant::Quotient(a, b)
+        | Variant::LessThan(a, b)
+        | Variant::LessThanOrEqualTo(a, b)
+        | Variant::EqualTo(a, b)
+        | Variant::GreaterThan(a, b)
+        | Variant::GreaterThanOrEqualTo(a, b) => {
+            site(a, Site::IntOperand, out);
+            site(b, Site::IntOperand, out);
+            fault_sites(a, depth + 1, out);
+            fault_sites(b, depth + 1, out);
+        }
+        Variant::Negation(a) => {
+            site(a, Site::IntOperand, out);
+            fault_sites(a, depth + 1, out);
+        }
+        Variant::If(c, t, e) => {
+            site(c, Site::Condition, out);
+            fault_sites(c, depth + 1, out);
+            fault_sites(t, depth + 1, out);
+            fault_sites(e, depth + 1, out);
+        }
+        Variant::Application(f, a) => {
+            site(f, Site::Applicand, out);
+            fault_sites(f, depth + 1, out);
+            fault_sites(a, depth + 1, out);
+        }
+        Variant::Lambda(_, _, d, b) => {
+            site(d, Site::TypePosition, out);
+            fault_sites(d, depth + 1, out);
+            fault_sites(b, depth + 1, out);
+        }
+        Variant::Pi(_, _, d, c) => {
+            site(d, Site::TypePosition, out);
+            site(c, Site::TypePosition, out);
+            fault_sites(d, depth + 1, out);
+            fault_sites(c, depth + 1, out);
+        }
+        Variant::Let(defs, body) => {
+            for (_, ann, def) in defs {
+                site(ann, Site::TypePosition, out);
+                fault_sites(ann, depth + 1, out);
+                fault_sites(def, depth + 1, out);
+            }
+            fault_sites(body, depth + 1, out);
+        }
+        _ => {}
+    }
+}
+
+/// A well-typed generated program (optionally under a multi-line layout with comments) in which
+/// one subterm, at a position whose expected type the syntax fixes, is replaced by a closed term
+/// of another type: some diagnostic must show exactly the replacement.
+fn deep_case(ctx: &Ctx, ch: &mut Ch) -> Outcome {
+    use crate::gens::prog::{self, ProgCfg};
+    let cfg = ProgCfg { forward_aliases: false, ..ProgCfg::default() };
+    let kind = [0, 1, 2][ch.pick(3)];
+    let fuel = 2 + ch.pick(4);
+    let Some(p) = prog::gen_program(ch, cfg, kind, fuel) else {
+        ctx.class("generator: gave up");
+        return Ok(());
+    };
+    if p.text.len() > 2500 {
+        ctx.class("skipped: longer than 2500 bytes");
+        return Ok(());
+    }
+    let text = if ch.chance(1, 2) { layout::render(&sast::print_tokens(&p.s), ch).0 } else { p.text.clone() };
+    let sites = catch(|| {
+        let toks = crate::tokenizer::tokenize(None, &text).ok()?;
+        let term = crate::parser::parse(None, &text, &toks, &[]).ok()?;
+        let mut v = vec![];
+        fault_sites(&term, 0, &mut v);
+        Some(v)
+    })
+    .map_err(|e| Failure::new(format!("panic: {e}"), format!("{text:?}")).with_sig("panic"))?;
+    let Some(sites) = sites else {
+        ctx.class("the generated program does not parse (outside this part)");
+        return Ok(());
+    };
+    if sites.is_empty() {
+        ctx.class("no position with a syntactically fixed type");
+        return Ok(());
+    }
+    let (s, e, site, depth) = sites[ch.pick(sites.len())];
+    let (snippet, head): (String, String) = match site {
+        Site::IntOperand => {
+            let f = ["true", "false", "(1 < 2)", "(if true then false else true)", "(if true\n      then false\n      else true)"][ch.pick(5)];
+            (f.to_owned(), "This has type `bool`, but it should have type `int`:".to_owned())
+        }
+        Site::Condition => (["5", "(1 + 2)"][ch.pick(2)].to_owned(), "This has type `int`, but it should have type `bool`:".to_owned()),
+        Site::Applicand => {
+            let f = ["5", "(1 + 2)", "true"][ch.pick(3)];
+            (f.to_owned(), format!("This has type `{}` when a function was expected:", if f == "true" { "bool" } else { "int" }))
+        }
+        Site::TypePosition => (["5", "(2 * 3)"][ch.pick(2)].to_owned(), "This is not a type:".to_owned()),
+    };
+    // Keep the replacement a separate token.
+    let needs_space_before = text[..s].chars().next_back().is_some_and(|c| c.is_alphanumeric() || c == '_');
+    let needs_space_after = text[e..].chars().next().is_some_and(|c| c.is_alphanumeric() || c == '_');
+    let mut mutated = String::with_capacity(text.len() + snippet.len());
+    mutated.push_str(&text[..s]);
+    if needs_space_before {
+        mutated.push(' ');
+    }
+    let start = mutated.len();
+    mutated.push_str(&snippet);
+    let end = mutated.len();
+    if needs_space_after {
+        mutated.push(' ');
+    }
+    mutated.push_str(&text[e..]);
+    let family: &'static str = match site {
+        Site::IntOperand => "deep: bool operand where int is required",
+        Site::Condition => "deep: int condition",
+        Site::Applicand => "deep: non-function applied",
+        Site::TypePosition => "deep: annotation / domain / codomain is not a type",
+    };
+    // The replacement must leave a program that still parses. (It does not when the replaced
+    // range cut through parentheses - the recorded finding about grouped chain operands.)
+    let parses = catch(|| crate::tokenizer::tokenize(None, &mutated).ok().is_some_and(|toks| crate::parser::parse(None, &mutated, &toks, &[]).is_ok()))
+        .map_err(|e| Failure::new(format!("panic: {e}"), format!("{mutated:?}")).with_sig("panic"))?;
+    if !parses {
+        ctx.class("deep: the replacement does not parse (replaced range cut through parentheses); skipped");
+        return Ok(());
+    }
+    let planted = Planted { text: mutated, start, end, head, family, binder_form: "" };
+    let multi_line = check_planted(&planted)?;
+    ctx.class(&format!("fault family: {family}"));
+    ctx.class(&format!("deep: fault at depth {}", if depth >= 8 { ">= 8".to_owned() } else { depth.to_string() }));
+    if depth >= 3 || multi_line {
+        ctx.nontrivial(&format!("{:?} @{}..{}", planted.text, planted.start, planted.end));
+    }
+    Ok(())
+}
+
 const REGRESSIONS: [(&str, &str, &str); 4] = [
     ("a = 1; {a} => a", "a", "Variable `a` already exists."),
     ("é = 1; é + true", "true", "This has type `bool`, but it should have type `int`:"),
@@ -470,7 +644,7 @@ pub fn def(tier: Tier) -> CheckDef {
     CheckDef {
         id: "C15",
         level: "exploration",
-        rule: "proptest-generated rejected programs with one planted fault of known byte span (unbound name; re-bound name in all eight binder forms; seven kinds of type fault whose offending subexpression is an atom, a parenthesised operator expression, or a multi-line conditional; stray symbols incl. emoji and combining sequences), placed after 0-40 lines of definitions / comments / blank lines, after non-ASCII text on the same line, on indented continuation lines, with LF or CRLF, with and without a final line break; oracle = the diagnostic of the expected family exists and its excerpt shows exactly the spanned lines, their 1-based numbers, and overline columns equal to the span's characters (leading indentation of continuation lines and trailing whitespace optional); plus, for generated programs under generated multi-line layouts, every subterm's source range lies in the file on character boundaries, nests in its parent's, and its text re-parses in that scope to the same subterm; non-trivial = fault not on line 1, or non-ASCII text before it on its line, or a multi-line span (for the range part: >= 5 subterms and a multi-line or non-ASCII layout); distinct by text",
+        rule: "proptest-generated rejected programs with one planted fault of known byte span (unbound name; re-bound name in all eight binder forms; seven kinds of type fault whose offending subexpression is an atom, a parenthesised operator expression, or a multi-line conditional; stray symbols incl. emoji and combining sequences), placed after 0-40 lines of definitions / comments / blank lines, after non-ASCII text on the same line, on indented continuation lines, with LF or CRLF, with and without a final line break; oracle = the diagnostic of the expected family exists and its excerpt shows exactly the spanned lines, their 1-based numbers, and overline columns equal to the span's characters (leading indentation of continuation lines and trailing whitespace optional); plus type-directed generated well-typed programs (optionally under a generated multi-line layout with comments) in which one subterm at a position whose expected type the syntax fixes (operand of an arithmetic or comparison operator, condition, applicand, annotation / domain / codomain) is replaced by a closed term of another type - some diagnostic must show exactly the replacement; plus, for generated programs under generated multi-line layouts, every subterm's source range lies in the file on character boundaries, nests in its parent's, and its text re-parses in that scope to the same subterm; non-trivial = fault not on line 1, or non-ASCII text before it on its line, or a multi-line span (for the range part: >= 5 subterms and a multi-line or non-ASCII layout); distinct by text",
         assumptions: vec![
             "a type error about a parenthesised expression points at the expression including its parentheses (the parser documents that a group's range includes them)",
             "the overline row is compared in characters, as the property states",
@@ -505,6 +679,15 @@ pub fn def(tier: Tier) -> CheckDef {
                 run: Box::new(|ctx, r| ctx.prop("planted", r, 1000, 200, planted_case)),
                 replay: Some(Box::new(|ctx, inp| match inp {
                     ReplayInput::Choices(c) => planted_case(ctx, &mut Ch::new(c)),
+                    _ => Err(Failure::new("this part replays from choices", "")),
+                })),
+            },
+            Part {
+                name: "deep",
+                rounds,
+                run: Box::new(|ctx, r| ctx.prop("deep", r, 400, 800, deep_case)),
+                replay: Some(Box::new(|ctx, inp| match inp {
+                    ReplayInput::Choices(c) => deep_case(ctx, &mut Ch::new(c)),
                     _ => Err(Failure::new("this part replays from choices", "")),
                 })),
             },
